@@ -236,5 +236,6 @@ void h_run(void) {
     for (int w = 0; w < nw; w++) fiber_join(fw[w], NULL);
   }
   if (strict_mode && wait_returns != total) sim_violation("C20-strict-raise-count", "%d strict raises released %d waiters", total, wait_returns);
+  fiber_multi_signal_destroy(&ms);
   h_fiber_end();
 }
